@@ -60,6 +60,37 @@ def ac_norm(e):
     return ("const", repr(e))
 
 
+def neutral_norm(e):
+    """ac_norm after dropping 0 from sums and 1 from products and collapsing a product with a 0 factor to 0 (value-preserving, but NOT part of
+    'reordering and regrouping': used only to name the cause of a failure)."""
+    import pymbolic.primitives as p
+    if isinstance(e, (p.Sum, p.Product)):
+        kids = [neutral_norm(c) for c in e.children]
+        flat = []
+        for k in kids:
+            if isinstance(k, type(e)):
+                flat.extend(k.children)
+            else:
+                flat.append(k)
+        if isinstance(e, p.Product) and any(not isinstance(k, p.Expression) and k == 0 for k in flat):
+            return 0
+        unit = 0 if isinstance(e, p.Sum) else 1
+        flat = [k for k in flat if isinstance(k, p.Expression) or k != unit]
+        if not flat:
+            return unit
+        if len(flat) == 1:
+            return flat[0]
+        return type(e)(tuple(flat))
+    if isinstance(e, p.Expression):
+        import dataclasses
+        if dataclasses.is_dataclass(e):
+            return type(e)(*[neutral_norm(getattr(e, f.name)) for f in dataclasses.fields(e)])
+        return e
+    if isinstance(e, tuple):
+        return tuple(neutral_norm(c) for c in e)
+    return e
+
+
 def instantiate(pat, binding):
     from pymbolic.mapper.substitutor import SubstitutionMapper, make_subst_func
     return SubstitutionMapper(make_subst_func(dict(binding)))(pat)
@@ -155,7 +186,8 @@ def target_atoms():
     import pymbolic.primitives as p
     x, y, z = (p.Variable(n) for n in "xyz")
     # the last three share their names with the pattern variables: a candidate may meet its own name in the target
-    return [x, y, 3, p.Sum((x, 1)), p.Product((2, y)), p.Power(z, 2), p.Variable("a"), p.Variable("c"), p.Sum((p.Variable("b"), 1))]
+    # 0 and 1: the neutral / absorbing constants of sums and products
+    return [x, y, 3, p.Sum((x, 1)), p.Product((2, y)), p.Power(z, 2), p.Variable("a"), p.Variable("c"), p.Sum((p.Variable("b"), 1)), 0, 1]
 
 
 def bounded(tier, seed, procs):
@@ -226,12 +258,13 @@ def bounded(tier, seed, procs):
                             break
                         inst = instantiate(pat, bind)
                         if ac_norm(inst) != ac_norm(t):
-                            why = f"record {rec!r}: instantiation {inst!r} is not the target"
+                            cz = "cause=neutral-or-absorbing-constant " if ac_norm(neutral_norm(inst)) == ac_norm(neutral_norm(t)) else ""
+                            why = f"{cz}record {rec!r}: instantiation {inst!r} is not the target"
                             break
                     if why is None and (t is ren or t is pat) and cands == vs and not recs:
                         why = "target is an injective renaming of the pattern but no record was returned"
                 if why:
-                    b.fail(Failure("unifier", f"pattern={pat!r} target={t!r} candidates={cands} why={why}", dict(kind="unify", pattern=trees.src(pat), target=trees.src(t), cands=cands),
+                    b.fail(Failure("unifier", f"{'cause=neutral-or-absorbing-constant ' if why.startswith('cause=neutral') else ''}pattern={pat!r} target={t!r} candidates={cands} why={why}", dict(kind="unify", pattern=trees.src(pat), target=trees.src(t), cands=cands),
                                    expected="sound records", actual=why, functions=["UnidirectionalUnifier.map_commut_assoc", "UnifierBase"]))
     b2 = matchpy_bridge(tier)
     return [b, b2, b_falsy_bindings(tier)]
